@@ -34,14 +34,73 @@ def load_prop(prop):
   return specs, META.get(prop, {})
 
 
-def run_rules(prop, root, tier, only_rule=None, repo=None, use_reference=True):
+def generic_files(prop):
+  from . import generic
+  return generic.ext_anchors(prop)
+
+
+def shared_specs(prop):
+  """Rules of *other* properties whose whole mechanism (every unit they consult on the reference tree) lies in the files this
+  property is anchored in.  They are run in violation-only mode: a finding is reported (the shared mechanism is broken, and
+  this property is anchored in it), anything else they have to say (held, inconclusive, floor) belongs to their own property."""
+  from . import generic
+  files = set(generic.ext_anchors(prop))
+  ref = reference.load()
+  out = []
+  for rid, v in sorted(ref.items()):
+    if rid.startswith('__') or not isinstance(v, dict) or rid.startswith(prop + '.') or rid.endswith('.R90') or rid.endswith('.R91'):
+      continue
+    fs = {k.split('|')[1] for k in v.get('units', {})}
+    if not fs & files:
+      continue
+    other = rid.split('.')[0]
+    try:
+      importlib.import_module('vf.props.%s' % other.lower())
+    except Exception:
+      continue
+    for sp in REGISTRY.get(other, []):
+      if sp.id == rid:
+        out.append(sp)
+  return out
+
+
+def run_rules(prop, root, tier, only_rule=None, repo=None, use_reference=True, shared=True):
   """Run all rules of `prop` on the tree at `root`. Returns (ctx, errors)."""
   specs, _ = load_prop(prop)
   repo = repo or Repo(root)
   ctx = report.Ctx(prop, repo, tier, root)
   errors = []
-  for spec in specs:
+  own = list(specs)
+  extra = shared_specs(prop) if shared and not os.environ.get('VF_NO_SHARED') else []
+  known_keys = {(k.get('rule'), k.get('construct_key')) for k in report.load_known() if k.get('status') == 'known'}
+  for spec in own + extra:
     if only_rule and spec.id != only_rule:
+      continue
+    is_shared = spec not in own
+    if is_shared:
+      # violation-only: run on a scratch context, keep the rule only if it reports something that is not a listed finding of its own property
+      sctx = report.Ctx(prop, repo, tier, root)
+      R = sctx.rule(spec.id, spec.kind, spec.floor, '[shared mechanism, rule of %s] %s' % (spec.prop, spec.title))
+      repo.trace = set()
+      try:
+        spec.fn(R, repo)
+      except Exception:
+        pass
+      R.consulted = repo.trace
+      repo.trace = None
+      sfiles = set(generic_files(prop))
+      R.findings = [f for f in R.findings if (f.rule, f.key) not in known_keys and f.file in sfiles]
+      if R.findings and use_reference and not os.environ.get('VF_NO_REFERENCE'):
+        R.error = None
+        reference.reuse(R, repo)
+        R.findings = [f for f in R.findings if (f.rule, f.key) not in known_keys and f.file in sfiles]
+      if R.findings:
+        R.error = None
+        R.inconclusive = []
+        R.floor = 0
+        R.shared = True
+        R.instances = [i for i in R.instances if not i[3]]
+        ctx.rules.append(R)
       continue
     R = ctx.rule(spec.id, spec.kind, spec.floor, spec.title)
     repo.trace = set()
